@@ -146,12 +146,31 @@ func runCheck(id, tier string, seed int, writeEvidence bool) (int, []violation) 
 				onlyNames[e] = true
 			}
 		}
-		rr = verifyFuncs(P, db, funcs, lemmas, work, timeout, seed)
+		if tier == "thorough" {
+			// pass 1: every obligation, claimed or not, with twice the quick time limit (the unclaimed ones are
+			// listed with their verdicts in the evidence file)
+			rr = verifyFuncs(P, db, funcs, lemmas, work, 20, seed)
+		} else {
+			rr = verifyFuncs(P, db, funcs, lemmas, work, timeout, seed)
+		}
 		onlyNames = nil
 		if tier == "thorough" {
-			// second seed: verdicts must not depend on it
+			// pass 2: the claimed obligations again under a second seed and six times the quick time limit:
+			// their verdicts must not depend on the seed
+			onlyNames = map[string]bool{}
+			for _, e := range expected {
+				onlyNames[e] = true
+			}
 			rr2 := verifyFuncs(P, db, funcs, lemmas, filepath.Join(work, "s2"), timeout, seed+1)
+			onlyNames = nil
+			claimedSet := map[string]bool{}
+			for _, e := range expected {
+				claimedSet[e] = true
+			}
 			for n, a := range rr2.aggs {
+				if !claimedSet[n] {
+					continue
+				}
 				if b, ok := rr.aggs[n]; ok && (a.Result == "discharged") != (b.Result == "discharged") && b.Result == "discharged" {
 					rr.aggs[n] = a
 				}
